@@ -206,3 +206,8 @@ CORPUS_C01: list = []
 
 PROP = Prop()
 CORPUS = mut.CORPUS + CORPUS_C01
+
+import parts  # noqa: E402
+import parts_misc  # noqa: E402
+
+parts.attach(PROP, parts_misc.REMOVED)   # removed nodes are inert (model Forest/MiscRemoved.v, theorems at the end of Properties/C01.v)
